@@ -204,6 +204,15 @@ func vhValidityHostile() {
 		{From: "2020-13-01", Until: "2021-01-01"},
 		{From: "2020-00-00", Until: "2021-01-01"},
 		{From: "2020-02-30", Duration: "1y"},
+		// counts that fit an int but make the calendar addition wrap around
+		{From: "2020-01-01", Duration: "999999999999y"},
+		{From: "2020-01-01", Duration: "999999999999999m"},
+		{From: "2020-01-01", Duration: "999999999999999d"},
+		{From: "2020-01-01", Duration: "292277026596y"},
+		// the default lifetime of five years carries the end past year 9999
+		{From: "9999-12-31"},
+		{From: "9996-06-01"},
+		{From: "9994-12-31"},
 	}
 	// counts that do not fit an int are out-of-range values that pass the
 	// schema: they have to be reported as a configuration error
